@@ -528,11 +528,11 @@ pub fn n_cells(prop: &str, tier: Tier) -> u64 {
         ("C06", Tier::Quick) => 200,
         ("C06", Tier::Thorough) => 3000,
         ("C07", Tier::Quick) => 240,
-        ("C07", Tier::Thorough) => 3600,
+        ("C07", Tier::Thorough) => 3000,
         ("C08", Tier::Quick) => 500,
         ("C08", Tier::Thorough) => 9000,
         ("C09", Tier::Quick) => 500,
-        ("C09", Tier::Thorough) => 9000,
+        ("C09", Tier::Thorough) => 6000,
         ("C11", Tier::Quick) => 500,
         ("C11", Tier::Thorough) => 9000,
         ("C17", Tier::Quick) => 320,
